@@ -116,11 +116,11 @@ func (e *extensions) UnmarshalXML(d *xml.Decoder, _ xml.StartElement) error {
 // UnmarshalXML implements xml.Unmarshaler.
 func (c *Channel) UnmarshalXML(d *xml.Decoder, start xml.StartElement) error {
 	data := struct {
-		XMLName    xml.Name `xml:"urn:xmpp:bookmarks:1 conference"`
-		Name       string   `xml:"name,attr"`
-		Autojoin   bool     `xml:"autojoin,attr"`
-		Nick       string   `xml:"nick"`
-		Password   string   `xml:"password"`
+		XMLName    xml.Name   `xml:"urn:xmpp:bookmarks:1 conference"`
+		Name       string     `xml:"name,attr"`
+		Autojoin   bool       `xml:"autojoin,attr"`
+		Nick       string     `xml:"nick"`
+		Password   string     `xml:"password"`
 		Extensions extensions `xml:"extensions"`
 	}{}
 	err := d.DecodeElement(&data, &start)
